@@ -595,6 +595,93 @@ func cacheFamilies() []graphFamily {
 
 // ---- C18 ----
 
+// c18Dangling: the same accounting when some pointer targets are missing from documents that load fine and the
+// expansion continues on errors: a document that was fetched (or is in the supplied cache) is not requested again
+// because a pointer into it leads nowhere.
+func c18Dangling(c *Ctx, w *refgraph.World, g *refgraph.Graph, fam string) {
+	keys := map[string]refgraph.Key{}
+	var names []string
+	for k := range g.KindOf {
+		if k.Doc != w.Root {
+			keys[k.String()] = k
+			names = append(names, k.String())
+		}
+	}
+	if len(names) == 0 {
+		return
+	}
+	sort.Strings(names)
+	var fs []fault
+	for i := 0; i < 1+c.Intn(2); i++ {
+		fs = append(fs, fault{"delete-target", names[c.Intn(len(names))]})
+	}
+	w2, _ := applyFaults(w, fs, keys)
+	if _, err := decodeSwagger(w2.Docs[w2.Root]); err != nil {
+		return
+	}
+	cs := map[string]interface{}{"world": worldJSON(w2), "deleted": fs, "family": fam}
+	// (a $ref left in place inside an imported schema reads, from then on, relative to the importing document - see
+	// C08 - and may designate a location where no document is: such requests fail, nothing is stored, and they may
+	// be repeated; only documents that exist are counted)
+	existing := func(loads []string) []string {
+		var out []string
+		for _, u := range loads {
+			if _, ok := w2.Docs[u]; ok {
+				out = append(out, u)
+			}
+		}
+		return out
+	}
+	for _, wo := range []expOpts{{Continue: true}, {Continue: true, Absolute: true}} {
+		res := expandWorld(w2, wo)
+		if res.Panic != "" || res.Hang || res.Err != nil {
+			continue // decided by C04 / C08
+		}
+		c.Hit("dangling:whole-spec")
+		if u, dup := hasDup(existing(res.Loads)); dup {
+			cs2 := map[string]interface{}{"entry": "ExpandSpec", "options": wo.String(), "loads": res.Loads}
+			for k, v := range cs {
+				cs2[k] = v
+			}
+			c.Fail(Failure{Kind: "oracle", Sig: "C18:fetched-twice", What: u + " was requested from the loader twice within one ExpandSpec call (" + wo.String() + ") over a world with a dangling pointer", Case: cs2})
+		}
+	}
+	var pre []string
+	for _, u := range w2.URLs() {
+		if u != w2.Root {
+			pre = append(pre, u)
+		}
+	}
+	for _, call := range rootElements(w2, "definitions", "schemaWithBase") {
+		call.Cont = true
+		for _, preload := range [][]string{nil, pre} {
+			t := &tracer{}
+			tc := newTCache(t)
+			tc.preload(w2, preload)
+			got := runEntry(w2, call, tc, tracedLoader(w2, t, nil))
+			if got.Panic != "" || got.Hang || got.Err != "" {
+				continue
+			}
+			c.Hit(fmt.Sprintf("dangling:preloaded:%d", len(preload)))
+			f := existing(fetchesOf(t.events()))
+			cs2 := map[string]interface{}{"call": call, "preloaded": nonNil(preload), "loads": f}
+			for k, v := range cs {
+				cs2[k] = v
+			}
+			if u, dup := hasDup(f); dup {
+				c.Fail(Failure{Kind: "oracle", Sig: "C18:fetched-twice", What: u + " was requested from the loader twice within one expansion over a world with a dangling pointer", Case: cs2})
+			}
+			for _, u := range f {
+				for _, p := range preload {
+					if u == p {
+						c.Fail(Failure{Kind: "oracle", Sig: "C18:fetched-although-cached", What: u + " is in the supplied cache but was requested from the loader (a pointer into it is dangling)", Case: cs2})
+					}
+				}
+			}
+		}
+	}
+}
+
 func runC18(c *Ctx) {
 	c.Res.Rule = "random multi-document reference graphs (5 families); every definition of the root through ExpandSchemaWithBasePath (and, for single-document worlds, every definition/parameter/response through ExpandSchema / ExpandParameterWithRoot / ExpandResponseWithRoot) with: no cache, a fresh instrumented cache, every subset of the documents pre-loaded (all subsets up to 4 documents, 8 random ones beyond), one cache reused over all elements of the root in sequence; oracle: same outcome as without a cache (by meaning for cyclic graphs), no URL requested twice from the loader, no pre-loaded URL requested; every recorded trace checked by the model's validator and replayed through the model's interpreter; non-trivial = run whose trace has at least one loader call or cache hit; distinct by (world, element, pre-load set)"
 	n := c.N(60, 1500)
@@ -629,6 +716,7 @@ func runC18(c *Ctx) {
 					Case: map[string]interface{}{"world": worldJSON(w), "entry": "ExpandSpec", "options": wo.String(), "loads": wres.Loads, "family": fam.name}})
 			}
 		}
+		c18Dangling(c, w, g, fam.name)
 		var calls []entryCall
 		calls = append(calls, rootElements(w, "definitions", "schemaWithBase")...)
 		if len(w.Docs) == 1 {
